@@ -914,7 +914,7 @@ def register_all(M):
     M.add(r"String::is_empty", lambda c, m, a: SBool(len(as_str(a[0]).chars) == 0))
     M.add(r"<String as Deref>::deref", lambda c, m, a: as_str(a[0]))
     M.add(r"String::as_bytes", lambda c, m, a: str_as_bytes(c, as_str(a[0])))
-    M.add(r"String::into_bytes", lambda c, m, a: VecBuf(str_as_bytes(c, as_str(a[0])).items, "u8"))
+    M.add(r"String::into_bytes|<String as Into<Vec<u8>>>::into|<Vec<u8> as From<String>>::from", lambda c, m, a: VecBuf(str_as_bytes(c, as_str(a[0])).items, "u8"))
 
     def string_add(c, m, a):
         s = deref(a[0])
